@@ -268,3 +268,28 @@ def replay_python(doc):
         return c19.replay(case)
     print("no python replay for", o)
     return 2
+
+# ---- additions made while strengthening the checks against seeded changes (DESIGN.md 11.5)
+CHECKS["C04"]["rule"] += ("; three further scaling constructs put the nest after a 5 000-statement prefix (per-file state of the formatter far from "
+                         "empty), the prefix's own cost being subtracted")
+CHECKS["C05"]["rule"] += ("; the body statement of if/while/for/with/on without begin/end must start its own line one level deeper than the line "
+                         "holding the controlling statement; a `begin` that starts a line opens its block itself; inline block comments in every gap of "
+                         "the d<=2 programs")
+CHECKS["C07"]["rule"] += ("; regions that run to the end of the file are tried with six file endings (no final terminator, trailing line comment, "
+                         "block comment, code, blanks) and with lone-CR line ends around a `//` toggle; the asm alphabet has lines with conditional / "
+                         "compiler directives and toggle comments inside an instruction line; asm tokens are judged unless a conditional directive outside "
+                         "asm code could switch the block itself")
+CHECKS["C08"]["rule"] += "; the blanks before the first token are the first line's indentation"
+CHECKS["C10"]["rule"] += ("; with hard tabs every re-indented multi-line literal must carry exactly the (all-tab) indentation string of the line that "
+                         "holds its opening quotes")
+CHECKS["C12"]["rule"] += ("; positions 7-10: a second literal in the same logical line (a rule-breaking one before, a misplaced valid one after), the "
+                         "default value of a parameter and the message of a hint directive (routine-header lines)")
+CHECKS["C16"]["rule"] += ("; the same machine is also explored under `encoding = ISO-2022-JP` from states whose contents carry redundant / JIS-Roman / "
+                         "JIS X 0208 escape sequences (byte length and text length move independently), modes check and files")
+CHECKS["C17"]["rule"] += ("; per configured encoding one 32-file batch on one worker thread alternating rejected files (malformed in that encoding, "
+                         "truncated UTF-16) and valid files: every valid file must get its stand-alone result, every rejected one stay untouched")
+CHECKS["C18"]["rule"] += ("; c18free additionally checks the exit status for 0, 1, 2, 255, 256, 257, 512 (thorough: 768, 65 536) failing files among good "
+                         "ones, and stdout mode on a 96-file directory with sections of 5 B to 100 KiB: the output must be the stand-alone sections in some "
+                         "order, each whole and exactly once (repeated runs, 16 and 3 threads; sampled schedules)")
+CHECKS["C19"]["rule"] += ("; shadowing sources that set different keys (a discovered file under --config-file, a farther file under the nearest one): nothing "
+                         "of a shadowed source may leak; keys in upper / mixed case or with a hyphen are unknown keys in every source")
